@@ -27,6 +27,7 @@ def check(rep, tier):
     # ordinary closures inside generator bodies: compiled vs reference for the closure-heavy corpus generators
     cases = R["cases"]
     gdiff = [i for i, (a, b) in enumerate(zip(R["out"], R["ref"])) if cases[i]["g"].startswith("oc.") and a.get("events") != b.get("events")]
+    eta_bad = eta_model(rep, R.get("oc_out_text", ""))
     rep.coverage.update({
         "evaluations": len(by) * 3 + len([c for c in cases if c["g"].startswith("oc.")]),
         "programs": len(optcorpus.BYSTANDERS) + len(optcorpus.GENS),
@@ -54,8 +55,56 @@ def check(rep, tier):
             "what": "an ordinary closure inside a generator body changed its meaning",
             "generator": cases[i]["g"], "source_text": optcorpus.GENS[cases[i]["g"].split(".")[1]], "tape": cases[i]["tape"],
             "compiled_events": R["out"][i]["events"], "reference_events": R["ref"][i]["events"]}))
+    if not rep.violations and eta_bad:
+        rep.violation(rep.write_replay("eta_model", {
+            "what": "the optimiser's decision to eta-reduce a closure differs from the decision of the model (coq/EtaModel.v: reduces); theorem "
+                    "C13_eta_reduction_sound_partial no longer speaks about this code", "detail": eta_bad}), "no-failing-input-found")
     rep.assumptions = ["the source package is built natively with the real go-co stub API (Yield is a no-op there), so only non-generator functions are compared against it"]
 
+
+
+def eta_model(rep, out_text):
+    """Decision correspondence: for one closure of every callee class, was it eta-reduced in the generated file?
+    Compared with EtaModel.reduces evaluated inside Coq."""
+    import os
+    import re
+    if not os.path.exists(os.path.join(C.COQ, "EtaModel.v")) or not out_text:
+        return None
+    names = list(optcorpus.ETA_CASES)
+    observed = {}
+    for n in names:
+        cls, am, ti, var, lines = optcorpus.ETA_CASES[n]
+        m = re.search(r"^func %s\(\) \[\]int \{\n(.*?)^\}" % n, out_text, re.S | re.M)
+        if not m:
+            return {"function": n, "problem": "not found in the generated file"}
+        mm = re.search(r"^\s*%s := (.*)$" % re.escape(var), m.group(1), re.M)
+        if not mm:
+            return {"function": n, "problem": "definition of %s not found" % var}
+        observed[n] = not mm.group(1).lstrip().startswith("func(")
+    rows = "; ".join("(%s, %s, %s)" % ("true" if optcorpus.ETA_CASES[n][1] else "false", "true" if optcorpus.ETA_CASES[n][2] else "false", optcorpus.ETA_CASES[n][0])
+                     for n in names)
+    txt = ("From Coq Require Import List.\nFrom Verif Require Import EtaModel.\nImport ListNotations.\n"
+           "Definition D := Eval vm_compute in map (fun r => match r with (am, ti, c) => reduces am ti c end) [%s].\nPrint D.\n" % rows)
+    ev = C.workdir("eta")
+    try:
+        rc, out = C.coq_eval(ev, "eta_cases", txt)
+    finally:
+        C.rmtree(ev)
+    if rc != 0:
+        raise RuntimeError("coqc failed on eta cases: " + out[-2000:])
+    body = re.search(r"D\s*=\s*\[(.*?)\]\s*:\s*list", out, re.S).group(1)
+    model = [x.strip() == "true" for x in body.split(";")]
+    if len(model) != len(names):
+        raise RuntimeError("eta model evaluation returned %d decisions for %d closures" % (len(model), len(names)))
+    rep.coverage["eta_decisions_compared"] = len(names)
+    rep.coverage["eta_decisions"] = {n: {"model_reduces": d, "optimiser_reduced": observed[n]} for n, d in zip(names, model)}
+    bad = [n for n, d in zip(names, model) if d != observed[n]]
+    rep.coverage["eta_decision_mismatches"] = len(bad)
+    if bad:
+        n = bad[0]
+        return {"function": n, "class": optcorpus.ETA_CASES[n][0], "model_reduces": dict(zip(names, model))[n], "optimiser_reduced": observed[n],
+                "source": optcorpus.ETA_CASES[n][4]}
+    return None
 
 def replay(rep, path):
     print("re-run: bin/check C13 (fixed corpus)")
